@@ -264,8 +264,9 @@ fn observed_of(list: &cooklang_bindings::model::IngredientList) -> Expected {
                     ent.0 += start;
                     ent.1 += end;
                 }
-                // text amounts under one key are concatenated: split into the single-letter pieces
-                Value::Text { value } => ent.2.extend(value.chars().map(|c| c.to_string())),
+                // text amounts under one key are joined somehow (the property only speaks of numeric sums): compare
+                // the letters and digits, whatever separator the join uses
+                Value::Text { value } => ent.2.extend(value.chars().filter(|c| c.is_alphanumeric()).map(|c| c.to_string())),
                 Value::Empty => {}
             }
             if kind_of(v) != kind {
